@@ -313,6 +313,9 @@ func disposableBias(rng *rand.Rand) GenOpts {
 // C10Overlap is installed by package conc (constructions overlapping a concurrent Close).
 var C10Overlap func(c *eng.Ctx, next func() (int, bool))
 
+// C10ReentrantClose (package conc): Close called from inside a Close method, judged for C10.
+var C10ReentrantClose func(c *eng.Ctx, next func() (int, bool))
+
 func runC10(c *eng.Ctx) {
 	cr := &caseRunner{c: c, prop: "C10"}
 	defer func() {
@@ -322,6 +325,9 @@ func runC10(c *eng.Ctx) {
 		RunPartialOutputs(c, "C10", cr.next)
 		if C10Overlap != nil {
 			C10Overlap(c, cr.next)
+		}
+		if C10ReentrantClose != nil {
+			C10ReentrantClose(c, cr.next)
 		}
 	}()
 	nSpecs := c.Pick(300, 6000)
